@@ -14,7 +14,7 @@ func init() {
 	register("C06", "Decides structural necessary conditions of 'destroying or failing to create an environment leaves nothing behind': "+
 		"(R06a) teardown order: release tasks -> acknowledgement -> DESTROY hooks -> release hook tasks -> acknowledgement -> pending calls cancelled -> DONE -> unlisted; "+
 		"(R06b) every DESTROY hook task withheld from the first release is in the second one (the list accumulates over all weights and is not status-filtered); "+
-		"(R06c) after registration every failure exit of both creation functions goes through forced teardown and task kill; (R06d) the API answers success only if teardown succeeded, retries with force, and skips the task kill only when asked to keep tasks; (R06e) doKillTasks sends a KILL to every ACTIVE task of its list (no early loop exit) and puts a task whose KILL failed back into the roster. "+
+		"(R06c) after registration every failure exit of both creation functions goes through forced teardown and task kill; (R06d) the API answers success only if teardown succeeded, retries with force, and skips the task kill only when asked to keep tasks; (R06e) doKillTasks sends a KILL to every ACTIVE task of its list (no early loop exit) and puts a task whose KILL failed back into the roster; (R06f) the pending-call bookkeeping teardown cancels from only loses entries that were awaited. "+
 		"Does not decide outcomes under all release/kill fault combinations.", runC06)
 }
 
@@ -23,6 +23,7 @@ func runC06(c *an.Ctx) {
 	r06c(c)
 	r06d(c)
 	r06e(c)
+	pendingMutationRule(c, "R06f")
 }
 
 func before(a, b ssa.Instruction) bool { return an.CanReach(a, b) && !an.CanReach(b, a) }
